@@ -71,7 +71,7 @@ mutual
     | .list [.atom "setm", n] => do pure (.setM ((← n.nat?) != 0))
     | .list [.atom "call", n] => do pure (.call (← toName n))
     | .list [.atom "unk"] => some .unknown
-    | .list [.atom "abs", w, a] => do pure (.absent (← w.optNat?) (← a.optNat?))
+    | .list [.atom "abs", w, r, a] => do pure (.absent (← w.optNat?) (← r.optNat?) (← a.optNat?))
     | .list [.atom "tick", c, k] => do pure (.tick (← c.nat?) (← k.nat?))
     | .list [.atom "grp", l] => do pure (.group (← toList l))
     | .list [.atom "sub", l] => do pure (.subshell (← toList l))
